@@ -811,6 +811,18 @@ def _check_geometry(run, world, lay, dumped, where, orient):
                       lambda: f"{where}: the box of a {b.kind.name} node spans [{a0}, {a1}] across "
                               f"the trunk of the species it belongs to, which spans [{lo}, {hi}]: "
                               f"it is laid out partly outside its species")
+    # anchors are where a lineage enters the trunk of the species it lives in (the point a
+    # transfer arrow or a parent's connector ends at): on the entry edge of that trunk
+    for sp, sl in lay.items():
+        t = sl.trunk
+        for g, p in sl.anchors.items():
+            on_edge = (abs(p.y - t.y) < 1e-6 and t.x - 1e-6 <= p.x <= t.x + t.w + 1e-6
+                       if vertical else
+                       abs(p.x - t.x) < 1e-6 and t.y - 1e-6 <= p.y <= t.y + t.h + 1e-6)
+            run.check(on_edge, ("C13",), "C13.anchor-off-trunk-entry",
+                      lambda: f"{where}: an anchor at {tuple(p)} is not on the entry edge of the "
+                              f"trunk {tuple(t)} of its species: arrows and connectors that end "
+                              f"there miss the lineage")
     # "This rect includes the fork and the trunk" (render/model.py): a trunk that leaves the
     # box of its own subtree is what makes it run into a cousin's trunk
     for sp, sl in lay.items():
